@@ -6,8 +6,8 @@ import re
 
 from ..absval import Lin, Undecided, eval_expr, eval_function, linform
 from ..core import (alpha, AnalysisError, call_name, const, dotted, is_const, kwarg, local_defs, norm, origin,
-                    parent_map, walk_local)
-from ..facts import default_of, guards_of, returns_of, enclosing_loops, assigned_subscripts
+                    parent_map, walk_local, names_in)
+from ..facts import iterations, expand_node_data, default_of, guards_of, returns_of, enclosing_loops, assigned_subscripts
 from ..rules.nonmut import mutations
 from ..shape import walk_paths
 from ..pattern import pmatch, pfind, pall
@@ -82,12 +82,15 @@ def tables(rep):
     lr = [c for c in uses if any(norm(t).replace(" ", "") == f"{SEC}!='context'" and s_ for t, s_ in guards_of(pm, c, w.node))]
     ok = False
     if lr:
-        el = enclosing_loops(pm, lr[0], w.node)
-        ok = bool(el) and pmatch(f"{GR}.edges(data=True)", el[0].iter) is not None and pmatch(f"{norm(el[0].target)}[2].get('order', 1)", lr[0].args[0]) is not None
-        # ... and the looked-up label is what the edge line prints
-        lab = [nm for nm, ds in local_defs(w.node).items() for d_ in ds if d_.value is lr[0]]
-        js = [j for j in walk_local(el[0]) if isinstance(j, ast.JoinedStr) and any(isinstance(v_, ast.FormattedValue) and lab and norm(v_.value) == lab[0] for v_ in j.values)] if el else []
-        ok = ok and bool(js) and [norm(v_.value) for v_ in js[0].values if isinstance(v_, ast.FormattedValue)] == [f"{norm(el[0].target)}[0]", f"{norm(el[0].target)}[1]", lab[0]]
+        its = iterations(pm, lr[0], w.node)
+        ok = bool(its) and pmatch(f"{GR}.edges(data=True)", its[0].iter) is not None and pmatch(f"{its[0].item(2)}.get('order', 1)", lr[0].args[0]) is not None
+        if ok:
+            # ... and the looked-up label is what the edge line prints (directly or through the local it was stored in)
+            ldefs = local_defs(its[0].holder)
+            js = [j for j in walk_local(its[0].holder) if isinstance(j, ast.JoinedStr)
+                  and any(isinstance(v_, ast.FormattedValue) and origin(ldefs, v_.value) is lr[0] for v_ in j.values)]
+            printed = [origin(ldefs, v_.value) for v_ in js[0].values if isinstance(v_, ast.FormattedValue)] if js else []
+            ok = len(printed) == 3 and norm(printed[0]) == its[0].item(0) and norm(printed[1]) == its[0].item(1) and printed[2] is lr[0]
     rep.ob("O10.1", "R3c", w, ok, "label = order_to_label.get(edge[2].get('order', 1), '-')", "left/right bonds are labelled by their own order (source, target, label printed in this order)")
     use_r = [c for c in walk_local(r.node) if isinstance(c, ast.Call) and norm(c.func) == f"{RT}.get"]
     add = [c for c in walk_local(r.node) if isinstance(c, ast.Call) and call_name(c) == "add_edge"]
@@ -156,16 +159,15 @@ def charges(rep):
     ok = len(labs) >= 2
     for j in labs:
         fv = [v.value for v in j.values if isinstance(v, ast.FormattedValue)]
-        el = enclosing_loops(pmw, j, w.node)
-        if not el or len(fv) != 3 or pmatch(f"{GR}.nodes(data=True)", el[0].iter) is None:
+        its = iterations(pmw, j, w.node)
+        if not its or len(fv) != 3 or pmatch(f"{GR}.nodes(data=True)", its[0].iter) is None:
             ok = False
             continue
-        nd = norm(el[0].target)
-        ld = local_defs(el[0])
+        ld = local_defs(its[0].holder)
         e_src, c_src = origin(ld, fv[1]), origin(ld, fv[2])
-        cm = pmatch("NXToGML._charge_to_string($q)", c_src)
-        ok = ok and norm(fv[0]) == f"{nd}[0]" and pmatch(f"{nd}[1].get('element', $$d)", e_src) is not None and cm is not None \
-            and pmatch(f"{nd}[1].get('charge', 0)", origin(ld, ast.Name(id=cm["q"], ctx=ast.Load()))) is not None
+        cm = pmatch("NXToGML._charge_to_string($$q)", c_src)
+        ok = ok and norm(fv[0]) == its[0].item(0) and pmatch(f"{its[0].item(1)}.get('element', $$d)", e_src) is not None and cm is not None \
+            and pmatch(f"{its[0].item(1)}.get('charge', 0)", origin(ld, c_src.args[0])) is not None
         # element and charge string are adjacent (nothing printed between them)
         vals = j.values
         i_e = [i for i, v in enumerate(vals) if v is not None and isinstance(v, ast.FormattedValue) and v.value is fv[1]][0]
@@ -363,9 +365,16 @@ def mol_graph(rep):
             if not m_:
                 return False
             e = ast.Name(id=m_["x"], ctx=ast.Load())
-        return f"{DATA}.get({key_text}" in norm(origin(d, e))
+        # the value is looked up in the node's data under exactly this key: data.get(key[, default]) or data[key]
+        looked_up = set()
+        for x in ast.walk(origin(d, e)):
+            if isinstance(x, ast.Call) and isinstance(x.func, ast.Attribute) and x.func.attr == "get" and norm(x.func.value) == DATA and x.args:
+                looked_up.add(norm(x.args[0]))
+            elif isinstance(x, ast.Subscript) and norm(x.value) == DATA:
+                looked_up.add(norm(x.slice))
+        return looked_up == {key_text}
     ok = reads("Atom", "self.node_attributes['element']") and reads("SetFormalCharge", "self.node_attributes['charge']") \
-        and reads("SetAtomMapNum", "self.node_attributes['atom_map']") and reads("SetNumExplicitHs", "'hcount', 0", unwrap="int")
+        and reads("SetAtomMapNum", "self.node_attributes['atom_map']") and reads("SetNumExplicitHs", "'hcount'", unwrap="int")
     rep.ob("O10.3", "R3b", g, ok, "Atom(element) / SetFormalCharge(charge) / SetAtomMapNum(atom_map) / SetNumExplicitHs(int(hcount))",
            "element, charge, atom map and hydrogen count are each read from their own key and applied to the matching RDKit atom property")
     ni = [c for c in walk_local(g.node) if isinstance(c, ast.Call) and call_name(c) == "SetNoImplicit"]
@@ -389,7 +398,11 @@ def mol_graph(rep):
             okb = f"{ed_}.get(self.edge_attributes['order']" in norm(origin(d, ast.Name(id=m_["o"], ctx=ast.Load())))
             ma, mb = pmatch(f"$m[{u_}]", ab[0].args[0]), pmatch(f"$m[{v_}]", ab[0].args[1])
             # the map is filled by  <m>[node] = mol.AddAtom(atom)
-            ok = ma is not None and mb is not None and ma["m"] == mb["m"] and nl and pall([f"$i = $mol.AddAtom($a)", f"{ma['m']}[{norm(nl[0].target.elts[0])}] = $i"], nl[0]) is not None
+            if ma is not None and mb is not None and ma["m"] == mb["m"] and nl:
+                ldn = local_defs(nl[0])
+                stores = [(t, v) for t, v, st in assigned_subscripts(nl[0]) if norm(t.value) == ma["m"]]
+                ok = len(stores) == 1 and norm(stores[0][0].slice) == norm(nl[0].target.elts[0]) \
+                    and pmatch("$mol.AddAtom($$a)", origin(ldn, stores[0][1])) is not None
     rep.ob("O10.3", "R3b", g, okb, "bond_order <- data.get(self.edge_attributes['order'], 1)", "the bond order is read from the 'order' key")
     rep.ob("O10.3", "R3b", g, ok, ab[0] if ab else "AddBond", "bonds join the atoms created for their own end nodes")
     bw = rep.f(M2G, "MolToGraph._gather_bond_properties")
@@ -428,15 +441,33 @@ def hydrogens(rep):
         muts = mutations(rep.repo, fn, p)
         rep.ob("O10.4", "R9", fn, not muts, muts[0][0] if muts else f"parameter `{p}`", f"{fn.qual} works on a copy: the input graph is not modified" + (f": {muts[0][1]}" if muts else ""),
                node=muts[0][0] if muts else fn.node)
-    rets = returns_of(ex.node)
+    exn = expand_node_data(ex.node)  # `x = H2.nodes[n]` aliases are spelt out
+    d = local_defs(exn)
+    pm = parent_map(exn)
+    rets = returns_of(exn)
     H2 = norm(rets[-1].value) if rets and isinstance(rets[-1].value, ast.Name) else "?"
-    lp = [l for l in walk_local(ex.node) if isinstance(l, ast.For) and isinstance(l.iter, ast.Call) and call_name(l.iter) == "range"]
-    cm = pmatch("range($count)", lp[0].iter) if len(lp) == 1 else None
-    rep.ob("O10.4", "R15", ex, cm is not None, lp[0].iter if lp else "range", "exactly `count` hydrogen atoms are added")
-    if cm is None:
+    # the loop that creates the hydrogens: a range loop containing add_node
+    lp = [l for l in walk_local(exn) if isinstance(l, ast.For) and isinstance(origin(d, l.iter), ast.Call) and call_name(origin(d, l.iter)) == "range"
+          and any(isinstance(c, ast.Call) and call_name(c) == "add_node" for c in walk_local(l))]
+    rng = origin(d, lp[0].iter) if len(lp) == 1 else None
+    COUNT, form = None, None
+    if rng is not None and not rng.keywords:
+        if len(rng.args) == 1 and isinstance(rng.args[0], ast.Name):
+            COUNT, form = rng.args[0].id, "counter"
+        elif len(rng.args) == 2:
+            # range(lo, hi): hi - lo iterations
+            try:
+                cands = [nm for nm in names_in(rng.args[1]) - names_in(rng.args[0])]
+                diff = linform(ast.BinOp(left=rng.args[1], op=ast.Sub(), right=rng.args[0]), lambda n: norm(n) if isinstance(n, ast.Name) else None)
+                if len(cands) == 1 and diff == Lin({cands[0]: 1}):
+                    COUNT, form = cands[0], "range"
+            except Undecided:
+                pass
+    rep.ob("O10.4", "R15", ex, (COUNT is not None) if lp and rng is not None and len(rng.args) <= 2 else None, lp[0].iter if lp else "range",
+           "exactly `count` hydrogen atoms are added")
+    if COUNT is None:
         return
-    COUNT = cm["count"]
-    outer = enclosing_loops(pm, lp[0], ex.node)
+    outer = enclosing_loops(pm, lp[0], exn)
     HEAVY = norm(outer[0].target) if outer else "?"
     cnt = [x for x in d.get(COUNT, []) if x.kind == "assign"]
     ok = len(cnt) == 1 and pmatch(f"{H2}.nodes[{HEAVY}].get('hcount', 0)", cnt[0].value) is not None
@@ -449,41 +480,72 @@ def hydrogens(rep):
         and norm(ae[0].args[0]) == HEAVY and norm(ae[0].args[1]) == norm(an[0].args[0]) and const(kwarg(ae[0], "order")) == 1 \
         and norm(an[0].func.value) == H2 and norm(ae[0].func.value) == H2
     rep.ob("O10.4", "R15", ex, ok, "add_node(new, element='H', hcount=0, ...); add_edge(heavy, new, order=1)", "each new atom is a hydrogen with no hydrogens of its own, single-bonded to the heavy atom")
-    # fresh identifiers: the counter starts at the largest existing id and is advanced before every use
-    CTR = norm(an[0].args[0]) if an else "?"
-    mx = [x for x in d.get(CTR, []) if x.kind == "assign"]
+    # fresh identifiers: the counter starts at the largest existing id and every new id lies above everything handed out so far
+    NEW = norm(an[0].args[0]) if an else "?"
+    if form == "counter":
+        CTR = NEW
+    else:
+        lo_names = sorted(names_in(rng.args[0]))
+        CTR = lo_names[0] if len(lo_names) == 1 else "?"
+    mx = sorted([x for x in d.get(CTR, []) if x.kind == "assign"], key=lambda x: x.stmt.lineno)
     src = norm(mx[0].value).replace(" ", "") if mx else ""
     ok = src in (f"max({H2}.nodes)if{H2}.nodeselse0", f"max({H2}.nodes,default=0)", f"max({H2}.nodes())if{H2}.nodes()else0", f"max({H2}.nodes(),default=0)", f"max({H2})if{H2}else0")
     rep.ob("O10.4", "R15", ex, ok if mx else None, "max_node = max(H2.nodes) if H2.nodes else 0" if ok else (alpha(mx[0].stmt, ex.node) if mx else "max_node"),
            "new hydrogen ids start above the largest existing node id (they can never overwrite an atom)")
-    inc = [n for n in lp[0].body if isinstance(n, ast.AugAssign) and norm(n.target) == CTR and isinstance(n.op, ast.Add) and is_const(n.value, 1)]
-    ok = len(inc) == 1 and bool(an) and inc[0].lineno < an[0].lineno
-    rep.ob("O10.4", "R15", ex, ok, "max_node += 1 before add_node(max_node, ...)", "the id counter is advanced before each new hydrogen is created")
-    sub = [n for n in walk_local(ex.node) if isinstance(n, ast.AugAssign) and pmatch(f"{H2}.nodes[{HEAVY}]['hcount']", n.target) is not None]
-    ok = len(sub) == 1 and isinstance(sub[0].op, ast.Sub) and norm(sub[0].value) == COUNT and not [l for l in enclosing_loops(pm, sub[0], ex.node) if l in lp]
+    if form == "counter":
+        inc = [n for n in lp[0].body if isinstance(n, ast.AugAssign) and norm(n.target) == CTR and isinstance(n.op, ast.Add) and is_const(n.value, 1)]
+        ok = len(inc) == 1 and bool(an) and inc[0].lineno < an[0].lineno
+        rep.ob("O10.4", "R15", ex, ok, "max_node += 1 before add_node(max_node, ...)", "the id counter is advanced before each new hydrogen is created")
+    else:
+        # for new in range(ctr + 1, ctr + count + 1): ...;  ctr = <last id>   (ids ctr+1 .. ctr+count, then the counter catches up)
+        ok = None
+        try:
+            lo = linform(rng.args[0], lambda n: norm(n) if isinstance(n, ast.Name) else None)
+            starts_above = lo == Lin({CTR: 1, 1: 1}) and NEW == norm(lp[0].target)
+            after = [st for st in (outer[0].body if outer else []) if st.lineno > lp[0].lineno]
+            upd = [st for st in after if (isinstance(st, ast.Assign) and norm(st.targets[0]) == CTR) or (isinstance(st, ast.AugAssign) and norm(st.target) == CTR)]
+            caught_up = False
+            if len(upd) == 1 and len(mx) <= 2:
+                st = upd[0]
+                if isinstance(st, ast.AugAssign):
+                    caught_up = isinstance(st.op, ast.Add) and norm(st.value) == COUNT
+                else:
+                    v = origin(d, st.value)
+                    if isinstance(st.value, ast.Subscript) and is_const(st.value.slice, -1) and origin(d, st.value.value) is rng:
+                        caught_up = True  # range(lo, hi)[-1] == hi - 1 (the range is non-empty: count > 0 is checked before)
+                    else:
+                        caught_up = linform(v, lambda n: norm(n) if isinstance(n, ast.Name) else None) == Lin({CTR: 1, COUNT: 1})
+            ok = starts_above and caught_up
+        except Undecided:
+            ok = None
+        rep.ob("O10.4", "R15", ex, ok, "for new in range(max_node + 1, max_node + count + 1): ...; max_node = <last id>",
+               "new ids start one above the counter and the counter is moved to the last id afterwards")
+    sub = [n for n in walk_local(exn) if isinstance(n, ast.AugAssign) and pmatch(f"{H2}.nodes[{HEAVY}]['hcount']", n.target) is not None]
+    ok = len(sub) == 1 and isinstance(sub[0].op, ast.Sub) and norm(sub[0].value) == COUNT and not [l for l in enclosing_loops(pm, sub[0], exn) if l in lp]
     rep.ob("O10.4", "R15", ex, ok, "H2.nodes[heavy]['hcount'] -= count" if ok else (alpha(sub[0], ex.node) if sub else "hcount -= count"),
            "the implicit count is reduced by exactly the number of hydrogens made explicit (total hydrogen count unchanged)")
     im = rep.f(HY, "h_to_implicit")
-    pm = parent_map(im.node)
-    idefs = local_defs(im.node)
-    rets = returns_of(im.node)
+    imn = expand_node_data(im.node)
+    pm = parent_map(imn)
+    idefs = local_defs(imn)
+    rets = returns_of(imn)
     H2 = norm(rets[-1].value) if rets and isinstance(rets[-1].value, ast.Name) else "?"
-    rm = [c for c in walk_local(im.node) if isinstance(c, ast.Call) and call_name(c) == "remove_node"]
-    lps = enclosing_loops(pm, rm[0], im.node) if rm else []
+    rm = [c for c in walk_local(imn) if isinstance(c, ast.Call) and call_name(c) == "remove_node"]
+    lps = enclosing_loops(pm, rm[0], imn) if rm else []
     hn = origin(idefs, lps[0].iter) if lps else None
-    ok = hn is not None and pmatch(f"[$n for $n, $d in {H2}.nodes(data=True) if $d.get('element') == 'H']", hn) is not None
+    ok = hn is not None and pmatch(f"[$n for $n, $d in {H2}.nodes(data=True) if {H2}.nodes[$n].get('element') == 'H']", hn) is not None
     rep.ob("O10.4", "R15", im, ok, "h_nodes = [n for n, d in H2.nodes(data=True) if d.get('element') == 'H']", "all hydrogen atoms are collected")
     ok = len(rm) == 1 and len(lps) == 1 and norm(rm[0].args[0]) == norm(lps[0].target) and norm(rm[0].func.value) == H2 and not guards_of(pm, rm[0], lps[0])
     rep.ob("O10.4", "R15", im, ok, "H2.remove_node(h)", "every collected hydrogen atom is removed")
-    incs = [(t, v, st) for t, v, st in assigned_subscripts(im.node) if is_const(t.slice, "hcount")]
+    incs = [(t, v, st) for t, v, st in assigned_subscripts(imn) if is_const(t.slice, "hcount")]
     ok = False
     if len(incs) == 1 and lps:
         t, v, st = incs[0]
-        hl = enclosing_loops(pm, st, im.node)
+        hl = enclosing_loops(pm, st, imn)
         HEAVY = norm(hl[0].target) if hl else "?"
         try:
             lf = linform(v, lambda n: "old" if norm(n).replace(" ", "") == f"{H2}.nodes[{HEAVY}].get('hcount',0)" else None)
-            gs = [norm(g).replace(" ", "") for g, s_ in guards_of(pm, st, im.node) if s_]
+            gs = [norm(g).replace(" ", "") for g, s_ in guards_of(pm, st, imn) if s_]
             nb = origin(idefs, hl[0].iter) if hl else None
             ok = lf == Lin({"old": 1, 1: 1}) and gs == [f"{H2}.nodes[{HEAVY}].get('element')!='H'"] and pmatch(f"{H2}.nodes[{HEAVY}]['hcount']", t) is not None \
                 and len(hl) == 2 and hl[1] is lps[0] and nb is not None and norm(nb) in (f"list({H2}.neighbors({norm(lps[0].target)}))", f"{H2}.neighbors({norm(lps[0].target)})")
@@ -496,14 +558,15 @@ def hydrogens(rep):
 def implicit_h(rep, oid="O10.4"):
     """implicit_hydrogen: hcount = explicit + implicit, minus ONE per preserved hydrogen, non-preserved hydrogens removed"""
     fi = rep.f(HY, "implicit_hydrogen")
-    pm = parent_map(fi.node)
-    defs = local_defs(fi.node)
-    decs = [n for n in walk_local(fi.node) if isinstance(n, ast.AugAssign) and isinstance(n.op, ast.Sub) and pmatch("$g.nodes[$x]['hcount']", n.target) is not None]
+    fn = expand_node_data(fi.node)  # the attribute dict of a node is always spelt G.nodes[n]
+    pm = parent_map(fn)
+    defs = local_defs(fn)
+    decs = [n for n in walk_local(fn) if isinstance(n, ast.AugAssign) and isinstance(n.op, ast.Sub) and pmatch("$g.nodes[$x]['hcount']", n.target) is not None]
     if not decs:
         rep.ob(oid, "R15", fi, False, "no `hcount -= 1` for preserved hydrogens", "an explicit hydrogen that stays explicit must not also be counted in its heavy atom's hcount", node=fi.node)
     for d in decs:
         b = pmatch("$g.nodes[$x]['hcount']", d.target)
-        lps = enclosing_loops(pm, d, fi.node)
+        lps = enclosing_loops(pm, d, fn)
         ok = None
         why = ""
         if is_const(d.value, 1) and lps:
@@ -522,18 +585,19 @@ def implicit_h(rep, oid="O10.4"):
                     ok = None
                     why = "decrement loop shape not recognised"
         rep.ob(oid, "R15", fi, ok, d, "hcount is reduced by exactly one for every preserved explicit hydrogen bonded to the atom (" + why + ")", node=d)
-        gs = [norm(t).replace(" ", "") for t, s_ in guards_of(pm, d, fi.node) if s_]
+        gs = [norm(t).replace(" ", "") for t, s_ in guards_of(pm, d, fn) if s_]
         rep.ob(oid, "R15", fi, any("['element']!='H'" in g_ for g_ in gs) if ok else None, f"guards {gs}", "only heavy neighbours are adjusted", node=d)
-    first = pfind("$g.nodes[$n]['hcount'] = $a + $b", fi.node)
+    first = pfind("$g.nodes[$n]['hcount'] = $$a + $$b", fn)
     okf = False
     if first:
         st, b = first[0]
-        ea = origin(defs, ast.Name(id=b["a"], ctx=ast.Load()))
-        eb = origin(defs, ast.Name(id=b["b"], ctx=ast.Load()))
+        ea = origin(defs, st.value.left)
+        eb = origin(defs, st.value.right)
         texts = {norm(ea).replace(" ", ""), norm(eb).replace(" ", "")}
-        okf = any(t.startswith("sum((1for") and "['element']=='H'" in t and f".neighbors({b['n']})" in t for t in texts) and any(t.endswith("['hcount']") for t in texts)
+        okf = any(t.startswith("sum((1for") and "['element']=='H'" in t and f".neighbors({b['n']})" in t for t in texts) \
+            and any(t == f"{b['g']}.nodes[{b['n']}]['hcount']" for t in texts)
     rep.ob(oid, "R15", fi, okf if first else None, first[0][0] if first else "hcount = explicit + implicit", "every heavy atom's hcount first becomes (explicit hydrogen neighbours) + (implicit count)")
-    rm = pfind("$g.remove_nodes_from($l)", fi.node)
+    rm = pfind("$g.remove_nodes_from($l)", fn)
     okr = False
     if rm:
         src = origin(defs, ast.Name(id=rm[0][1]["l"], ctx=ast.Load()))
